@@ -421,7 +421,8 @@ func runC16(seed int64, count int) {
 			// the text codec alone, or above a length-prefixing frame codec: the frame codec gets the very message the
 			// text codec emits (not a flattened copy), as in a pipeline
 			var fc codec.Codec
-			switch rng.Intn(5) {
+			unframed := false
+			switch rng.Intn(7) {
 			case 0:
 				fc = frame.LengthFieldCodec(binary.BigEndian, 1<<24, 0, 4, 0, 4)
 			case 1:
@@ -435,13 +436,28 @@ func runC16(seed int64, count int) {
 				if n > 0 {
 					fc = frame.FixedLengthCodec(n)
 				}
+			case 4: // codecs that pass outbound messages through untouched
+				if n > 0 && n <= 4096 {
+					fc = frame.VariableLengthCodec(4096)
+					unframed = true
+				}
 			}
 			var wire []byte
 			var got string
 			delivered := false
 			func() {
 				defer func() { recover() }()
-				sink := &fakeCtx{onWrite: func(m netty.Message) { x, _ := flattenMsg(m); wire = append(wire, x...) }}
+				// what the head handler does with a message: the five carriers it accepts, anything else is refused
+				sink := &fakeCtx{onWrite: func(m netty.Message) {
+					if _, isString := m.(string); isString {
+						panic("unsupported type: string")
+					}
+					x, err := flattenMsg(m)
+					if err != nil {
+						panic(err)
+					}
+					wire = append(wire, x...)
+				}}
 				if fc != nil {
 					tc.HandleWrite(&fakeCtx{onWrite: func(m netty.Message) { fc.HandleWrite(sink, m) }}, string(s))
 				} else {
@@ -451,7 +467,7 @@ func runC16(seed int64, count int) {
 				if fc != nil {
 					// the frame arrives in several transport reads
 					var src netty.Message = bytes.NewReader(wire)
-					if rng.Intn(2) == 0 {
+					if rng.Intn(2) == 0 && !unframed { // (a codec without framing delivers one message per read by design)
 						var cs [][]byte
 						for _, c := range chunkings(rng, wire, 2+rng.Intn(2)) {
 							if len(c) > 0 {
@@ -461,6 +477,12 @@ func runC16(seed int64, count int) {
 						src = &chunkReader{chunks: cs, fin: io.EOF}
 					}
 					fc.HandleRead(&fakeCtx{onRead: func(m netty.Message) { tc.HandleRead(&fakeCtx{onRead: onRead}, m) }}, src)
+				} else if rng.Intn(3) == 0 {
+					// a handler in front of the text codec has consumed a prefix (a tag, a sequence number) of the reader
+					junk := []byte("#tag#")[:1+rng.Intn(5)]
+					r := bytes.NewReader(append(append([]byte(nil), junk...), wire...))
+					io.CopyN(io.Discard, r, int64(len(junk)))
+					tc.HandleRead(&fakeCtx{onRead: onRead}, r)
 				} else {
 					tc.HandleRead(&fakeCtx{onRead: onRead}, carrier(rng, wire))
 				}
